@@ -156,6 +156,9 @@ Definition dec_counters (t : tree) : option counters :=
   end.
 
 Definition enc_pc (pc : nat * nat) : tree := clause (Z.of_nat (fst pc)) (Z.of_nat (snd pc)) [].
+(* "every loss is counted in discarded_events_total" is a clause of C04 (4,2) and of C16 (16,7) alike *)
+Definition also_c16 (pc : nat * nat) : list (nat * nat) :=
+  match pc with (4, 2) => [(4, 2); (16, 7)] | _ => [pc] end%nat.
 
 (* clauses on the final state of a lockstep scenario come from the counters in the last snapshot only:
    the per-node accounting identity of C16 at quiescence (no call at the gate, nothing in flight) *)
@@ -262,7 +265,7 @@ Definition judge_free (ti tobs : tree) : tree :=
                                     | _ => []
                                     end) (combine (seq 0 (length ctrs)) ctrs) in
               let stall_clause := full_clause ++ (if stall_ok =? 0 then [clause 4 3 []] else []) ++ (if cut <? 0 then [] else stall_acct) in
-              verdict (diff_if (tree_eqb (enc_net nt) netdump) 1) (map enc_pc fails ++ stall_clause) (enc_net nt)
+              verdict (diff_if (tree_eqb (enc_net nt) netdump) 1) (map enc_pc (flat_map also_c16 fails) ++ stall_clause) (enc_net nt)
                       ((if clean then [30] else [31])
                        ++ (if existsb (fun x => ndisc x) nt then [20] else [])
                        ++ (if existsb (fun x => match nhandler x with Some _ => true | None => false end) nt then [21] else [])
